@@ -302,6 +302,12 @@ def rule_wif(ctx, repo):
     ss = repo.get_function(K + 'CECKey.set_secretbytes')
     gs2 = [canon_guard(n.test, repo, ss.module) for n in walk_no_nested(ss.node) if isinstance(n, ast.If) and flow.always_raises(n.body)]
     r.check(canon_text('len(secret) != 32') in gs2, 'secret-length', ss.site, 'exactly 32 bytes', 'secret length rule: %s' % gs2)
+    # the Base58Check container accepts every chain's secret-key version byte (its range test is the one-byte range)
+    fb = repo.find_method('bitcoin.base58.CBase58Data', 'from_bytes')
+    gsv = [canon_guard(n.test, repo, fb.module) for n in walk_no_nested(fb.node) if isinstance(n, ast.If) and flow.always_raises(n.body)]
+    okv = len(gsv) == 1 and equiv(gsv[0], 'nVersion < 0 or nVersion > 255') is True
+    r.check(okv, 'container-version-range', fb.site, 'versions 0..255 are representable', 'CBase58Data.from_bytes refuses versions by `%s`: a secret-key prefix outside that range '
+            '(239 on testnet, signet and regtest) cannot be printed or parsed' % gsv)
     m = repo.get_module('bitcoin')
     for name, ch in sorted(spec.CHAINS.items()):
         c = m.classes.get(ch['class'])
